@@ -936,14 +936,20 @@ pub fn source_scan(out: &mut Out) {
     };
     let conn = std::fs::read_to_string(format!("{}/src/production/connection_optimized.rs", repo)).unwrap_or_default();
     let conn_lines: Vec<&str> = conn.lines().collect();
-    // the transaction block of the handler: the `if self.in_transaction {` whose body is a `match` on
-    // the parsed command (whatever the result is bound to, however deep it is indented)
-    let txn_if = find_block(&conn_lines, &|l: &str| l.contains("if self.in_transaction {") && !l.contains("&&"), "match ");
-    // … and its `else`: the first `} else {` at the indentation of that `if` line
-    let txn_else = txn_if.and_then(|i| {
-        let ind = indent_of(conn_lines[i]);
-        (i + 1..conn_lines.len()).find(|&j| indent_of(conn_lines[j]) == ind && conn_lines[j].trim_start().starts_with("} else {"))
-    });
+    // the two transaction blocks of the handler, found by SHAPE (no field or variable name is used: the
+    // state may live in plain fields, in a private struct, behind accessors): the matches on the parsed
+    // command that have arms for EXEC, DISCARD and MULTI.  The block that runs inside MULTI has no arm
+    // for UNWATCH (UNWATCH is queued by `_`), the block that runs outside has one.
+    let cmd_matches: Vec<(usize, Vec<String>)> = (0..conn_lines.len())
+        .filter(|&i| {
+            let t = conn_lines[i].trim_start();
+            (t.contains("match &cmd {") || t.contains("match cmd {") || t.contains("match *cmd {")) && !t.starts_with("//")
+        })
+        .filter_map(|i| match_arms_at(&conn_lines, i, "match ").map(|a| (i, a)))
+        .filter(|(_, a)| ["Command::Exec", "Command::Discard", "Command::Multi"].iter().all(|x| a.iter().any(|y| y == x)))
+        .collect();
+    let txn_if = cmd_matches.iter().find(|(_, a)| !a.iter().any(|y| y == "Command::Unwatch")).map(|(i, _)| *i);
+    let txn_else = cmd_matches.iter().find(|(_, a)| a.iter().any(|y| y == "Command::Unwatch")).map(|(i, _)| *i);
     let acl = ["Command::Auth", "Command::AclWhoami", "Command::AclList", "Command::AclUsers", "Command::AclGetUser", "Command::AclSetUser", "Command::AclDelUser", "Command::AclCat", "Command::AclGenPass", "Command::AclDryrun", "Command::AclLog", "Command::AclLogReset"];
     // 1. inside MULTI
     check(
@@ -997,6 +1003,7 @@ pub fn source_scan(out: &mut Out) {
     check(out, "connection-handler:stub-names", stubs, &["PUBLISH", "SPUBLISH", "SUBSCRIBE", "SSUBSCRIBE", "PSUBSCRIBE", "UNSUBSCRIBE", "SUNSUBSCRIBE", "PUNSUBSCRIBE", "HELLO", "RESET", "CLIENT ", "CONFIG ", "ACL "], &[]);
     let mut chans = match (txn_if, txn_else) {
         (Some(i), Some(j)) => {
+            let (i, j) = if i < j { (i, j) } else { (i, conn_lines.len()) };
             let block = conn_lines[i..j].join("\n");
             block.find("matches!(").and_then(|a| literals_between(&block[a..], "matches!(", ") {"))
         }
@@ -1013,7 +1020,15 @@ pub fn source_scan(out: &mut Out) {
         "executor:queueing-prologue-arms",
         {
             let exm_lines: Vec<&str> = exm.lines().collect();
-            find_block(&exm_lines, &|l: &str| l.contains("if self.in_transaction {") && !l.contains("&&"), "match ").and_then(|i| match_arms_at(&exm_lines, i, "match "))
+            // the queueing prologue, by shape: the first match on the command that has an arm naming EXEC
+            // and at most five arms (the big dispatch has one arm per command)
+            (0..exm_lines.len())
+                .filter(|&i| {
+                    let t = exm_lines[i].trim_start();
+                    (t.contains("match cmd {") || t.contains("match &cmd {") || t.contains("match *cmd {")) && !t.starts_with("//")
+                })
+                .filter_map(|i| match_arms_at(&exm_lines, i, "match "))
+                .find(|a| a.len() <= 5 && a.iter().any(|y| y.contains("Command::Exec")))
         },
         &["Command::Exec|Command::Discard|Command::Multi", "Command::Watch", "_"],
         &[("_", "XInput.cmd / XInput.unwatch: everything else is queued — executor_variant_sweep queues EVERY Command variant"), ("Command::Watch", "XInput.watch inside MULTI"), ("Command::Exec|Command::Discard|Command::Multi", "fall through to execute_exec / execute_discard / execute_multi")],
